@@ -104,7 +104,7 @@ def stsDigest (t : IntTy) (a lo hi : Int) : String := digestRange lo hi (stLine 
 inductive Ty where
   | opt | eith | var | tup | arr | recd | sti | vec2 | vec3 | dim2 | mat22 | box2 | sph2 | bf3 | earr
   | grid | tree | rv | ref | sp | recu
-  | vec1 | vec4 | dim3 | mat23 | box3 | sph3 | grid1 | grid3 | unit | itr | bf9
+  | vec1 | vec4 | dim3 | mat23 | box3 | sph3 | grid1 | grid3 | unit | itr | bf9 | nest
   deriving DecidableEq, Repr
 
 def tyName : String → Option Ty
@@ -114,7 +114,7 @@ def tyName : String → Option Ty
   | "grid" => some .grid | "tree" => some .tree | "rv" => some .rv | "ref" => some .ref | "sp" => some .sp
   | "recu" => some .recu
   | "vec1" => some .vec1 | "vec4" => some .vec4 | "dim3" => some .dim3 | "mat23" => some .mat23 | "box3" => some .box3
-  | "sph3" => some .sph3 | "grid1" => some .grid1 | "grid3" => some .grid3 | "unit" => some .unit | "itr" => some .itr | "bf9" => some .bf9
+  | "sph3" => some .sph3 | "grid1" => some .grid1 | "grid3" => some .grid3 | "unit" => some .unit | "itr" => some .itr | "bf9" => some .bf9 | "nest" => some .nest
   | _ => none
 
 def ieq (a b : Int) : Bool := a == b
@@ -386,6 +386,20 @@ def relObs (ty : Ty) (a b : List Int) : Except String Obs := do
     | some x, some y =>
       pure { eq := SPtr.eq x y, ne := SPtr.ne x y, lt := some (SPtr.lt x y), hash := true,
              hashEq := SPtr.hash id x == SPtr.hash id y }
+    | _, _ => bad
+  | .nest =>
+    -- optional< variant< optional<int>, vector<int,2> > >: the model functions composed
+    let dec : List Int → Option (Option (Sum (Option Int) (Vector Int 2))) := fun l => match l with
+      | [] => some none
+      | [0] => some (some (.inl none))
+      | [0, x] => some (some (.inl (some x)))
+      | [1, x, y] => some (some (.inr ⟨#[x, y], rfl⟩))
+      | _ => none
+    match dec a, dec b with
+    | some x, some y =>
+      let e := Opt.eq (SumV.eq (Opt.eq ieq) (MVec.eq ieq)) x y
+      pure { eq := e, ne := Opt.ne (SumV.eq (Opt.eq ieq) (MVec.eq ieq)) x y,
+             lt := some (Opt.lt (SumV.lt (Opt.lt ilt) (MVec.lt ilt)) x y) }
     | _, _ => bad
   | .unit =>
     match a, b with
